@@ -195,6 +195,27 @@ def rule_dispatch(check):
                 for r_, p__ in pvd.origins(par_fn, v_):
                     if r_[0] == "call" and r_[1].split("::")[-1] == name and len(r_) > 3 and r_[3] == target["id"] and any(str(x).split(".")[-1] == "expr" for x in p__):
                         applied = True
+            if not applied:
+                # handed to a crate function that does the replacing: `f(..).replace_if_modified(expr)` with
+                # `*target = <result>.expr` (under `if let Some(..)`) inside
+                pc = par_fn.parent(target)
+                while pc is not None and pc.get("k") in ("DropTemps", "Use", "AddrOf"):
+                    pc = par_fn.parent(pc)
+                h_ = prog.resolve_local(pc) if pc is not None and hir.is_call(pc) else None
+                if h_ is not None and h_.body is not None:
+                    ai = [i_ for i_, a_ in enumerate(hir.call_args(pc)) if hir.peel(a_) is target or any(x is target for x in hir.walk(a_))]
+                    pvh = Prov(prog)
+                    for m in hir.walk(h_.body):
+                        if m.get("k") != "Assign":
+                            continue
+                        lp = (hir.place(m["l"]) or "").lstrip("*")
+                        lroot = lp.split(".")[0]
+                        lb = h_.bindings().get(int(lroot.split("#")[1])) if "#" in lroot and lroot.split("#")[1].isdigit() else None
+                        if not (lb and lb["origin"][0] == "param" and "." not in lp):
+                            continue
+                        for r_, p__ in pvh.origins(h_, m["r"]):
+                            if r_[0] == "param" and ai and r_[2] == ai[0] and any(str(x).split(".")[-1] == "expr" for x in p__):
+                                applied = True
             check.expect(applied, R, key + "/applied", hir.loc(n), "result.expr replaces the expression through map_with_mut", "the result of %s is never written back into the tree" % name)
     check.floor(R, "transform call sites", found, 5)
 
@@ -769,9 +790,16 @@ def _atom_name(fn, e, truth):
             return ("" if (v == "Some") == truth else "!") + "expr.is_array()"
         if v == "_":
             return "_"
+        if v == "Array" and "Expr::Array" in str(hir.pat_variant(pat)):
+            # `match &*x.expr { Expr::Array(a) => .. }` is the `x.expr.is_array()` test
+            return ("" if truth else "!") + "expr.is_array()"
         return ("" if truth else "!") + "matches " + v
     if e.get("k") == "ArmNot":
-        return "!(" + _atom_name(fn, {"k": "PatCond", "pat": e["pat"], "scrut": e["scrut"]}, True) + " && " + _atom_name(fn, e["guard"], True) + ")"
+        inner_ = _atom_name(fn, {"k": "PatCond", "pat": e["pat"], "scrut": e["scrut"]}, True)
+        if inner_ == "_":
+            # a guarded wildcard arm not taken: its guard is false
+            return _atom_name(fn, e["guard"], False)
+        return "!(" + inner_ + " && " + _atom_name(fn, e["guard"], True) + ")"
     e = hir.peel(e)
     neg = not truth
     while e.get("k") == "Unary" and e.get("op") == "Not":
